@@ -27,6 +27,10 @@ func init() {
 		hm := c.handlerModels()
 		checkMerge(c, "C06") // each push/pull entry gets its own claim (the timer closure keeps the claim it was given)
 		checkNodeCount(c, "C06") // k, min and max are computed from the cluster-size estimate
+		checkLockOrder(c, "C06") // the timeout callback takes the node lock: it must never run on the goroutine that holds it
+		c.mayRow(hm["suspect"], "C06/confirm/only-current-claims", "a suspect claim counts as a confirmation only if it is not older than the record: an accusation about an incarnation that was already refuted confirms nothing", classIn("CONFIRM"), func(g getf, e *gea.Effect) bool {
+			return isT(g, vOK) && geq(g, vOrd)
+		})
 		c.Assume("the logarithmic schedule itself (float64 log(n+1)/log(k+1)), time.Timer punctuality and suspicionTimeout's numeric value are not decided")
 
 		// ---- 1. Confirm: counted once per distinct confirmer, never beyond k, registered before returning
